@@ -192,33 +192,6 @@ theorem C06_init_error_not_initialized {α : Type} (o : NumOps α) (t : TP α) (
 
 /-! ### `dur` and `rate`: the step identities -/
 
-/-- what `update_cached` stores for an algebraic kind with known units -/
-theorem updateCached_dur (t : TP Rat) (hk : t.kind = .dur) {u pu : String} {lu lpu s p : Rat}
-    (hu : t.unit = some u) (hpu : t.parentUnit = some pu) (hs : t.selfDt = some s) (hp : t.parentDt = some p)
-    (hlu : unitLen u = some lu) (hlpu : unitLen pu = some lpu) (hp0 : p ≠ 0) (die : Bool) :
-    updateCached ratOps t true die =
-      ({ t with factor := some ((s / p) * (lu / lpu)), values := some (t.v.map (· * ((s / p) * (lu / lpu)))) }, .ok ()) := by
-  have hf : updateFactor t = .ok ((s / p) * (lu / lpu)) := by
-    simp [updateFactor, hu, hpu, hs, hp, timeRatio_known hlu hlpu hp0]
-  unfold updateCached
-  rw [hf]
-  simp only [if_true, hk, ratOps_ofRat, convVal_dur]
-  cases die <;> rfl
-
-theorem updateCached_rate (t : TP Rat) (hk : t.kind = .rate) {u pu : String} {lu lpu s p : Rat}
-    (hu : t.unit = some u) (hpu : t.parentUnit = some pu) (hs : t.selfDt = some s) (hp : t.parentDt = some p)
-    (hlu : unitLen u = some lu) (hlpu : unitLen pu = some lpu) (hp0 : p ≠ 0) (hs0 : s ≠ 0) (die : Bool) :
-    updateCached ratOps t true die =
-      ({ t with factor := some ((s / p) * (lu / lpu)), values := some (t.v.map (· / ((s / p) * (lu / lpu)))) }, .ok ()) := by
-  have hf : updateFactor t = .ok ((s / p) * (lu / lpu)) := by
-    simp [updateFactor, hu, hpu, hs, hp, timeRatio_known hlu hlpu hp0]
-  have hne : (s / p) * (lu / lpu) ≠ 0 := by
-    have := ne_of_gt (unitLen_pos hlu); have := ne_of_gt (unitLen_pos hlpu); positivity
-  unfold updateCached
-  rw [hf]
-  simp only [if_true, hk, ratOps_ofRat, convVal_rate hne]
-  cases die <;> rfl
-
 /-- **Duration in steps × step length = the duration in its own unit** (both sides in days):
     `values · dt_parent · len(parent unit) = v · self_dt · len(unit)`, scalar and array, all units, all dt. -/
 theorem C06_dur_steps (t : TP Rat) (hk : t.kind = .dur) {u pu : String} {lu lpu s p : Rat}
